@@ -2,32 +2,40 @@ import CSSVerif.Drained
 /-! Labels inside the queue: every label the queue holds or hands out was put there by `add` (used by the engine invariants of C04:
 the labels the searcher expands are labels of the class database). -/
 
-structure QL (q : Q) (P : Nat → Prop) : Prop where
+/-- the strategy indices of a work packet exist in the pack -/
+def WorkOK (p : Pack) : Work → Prop
+  | .inferral => True
+  | .initial i => i < p.nInit
+  | .expansion j i => j < p.exp.length ∧ i < p.exp.getD j 0
+
+structure QL (p : Pack) (q : Q) (P : Nat → Prop) : Prop where
   w : ∀ l, l ∈ q.working → P l
   n : ∀ l, l ∈ nlKeys q → P l
   c : ∀ j l, l ∈ q.curr.getD j [] → P l
-  s : ∀ w, w ∈ q.staging → P w.label
+  s : ∀ w, w ∈ q.staging → P w.label ∧ WorkOK p w.work
+  len : q.curr.length = p.exp.length + 1
 
-theorem QL.mono {q : Q} {P P' : Nat → Prop} (h : QL q P) (hp : ∀ l, P l → P' l) : QL q P' :=
-  ⟨fun l hl => hp l (h.w l hl), fun l hl => hp l (h.n l hl), fun j l hl => hp l (h.c j l hl), fun w hw => hp _ (h.s w hw)⟩
+theorem QL.mono {p : Pack} {q : Q} {P P' : Nat → Prop} (h : QL p q P) (hp : ∀ l, P l → P' l) : QL p q P' :=
+  ⟨fun l hl => hp l (h.w l hl), fun l hl => hp l (h.n l hl), fun j l hl => hp l (h.c j l hl),
+   fun w hw => ⟨hp _ (h.s w hw).1, (h.s w hw).2⟩, h.len⟩
 
-theorem QL.init (p : Pack) (P : Nat → Prop) : QL (Q.init p) P := by
-  refine ⟨?_, ?_, ?_, ?_⟩
+theorem QL.init (p : Pack) (P : Nat → Prop) : QL p (Q.init p) P := by
+  refine ⟨?_, ?_, ?_, ?_, by simp [Q.init]⟩
   · intro l hl; simp [Q.init] at hl
   · intro l hl; simp [Q.init, nlKeys] at hl
   · intro j l hl; simp only [Q.init] at hl; rw [getD_replicate_nil] at hl; cases hl
   · intro w hw; simp [Q.init] at hw
 
-theorem QL.add {p : Pack} {q : Q} {P : Nat → Prop} (h : QL q P) (l : Nat) (hl : P l) : QL (q.add p l) P := by
+theorem QL.add {p : Pack} {q : Q} {P : Nat → Prop} (h : QL p q P) (l : Nat) (hl : P l) : QL p (q.add p l) P := by
   unfold Q.add
   split
-  · refine ⟨?_, h.n, h.c, h.s⟩
+  · refine ⟨?_, h.n, h.c, h.s, h.len⟩
     intro x hx
     rcases List.mem_append.1 hx with e | e
     · exact h.w x e
     · simp only [List.mem_singleton] at e; rw [e]; exact hl
   · split
-    · refine ⟨h.w, ?_, h.c, h.s⟩
+    · refine ⟨h.w, ?_, h.c, h.s, h.len⟩
       intro x hx
       simp only [nlKeys] at hx
       rcases (counterAdd_mem _ _ _).1 hx with e | e
@@ -35,15 +43,15 @@ theorem QL.add {p : Pack} {q : Q} {P : Nat → Prop} (h : QL q P) (l : Nat) (hl 
       · exact h.n x e
     · exact h
 
-theorem QL.setNotInferrable {q : Q} {P : Nat → Prop} (h : QL q P) (l : Nat) : QL (q.setNotInferrable l) P := by
+theorem QL.setNotInferrable {p : Pack} {q : Q} {P : Nat → Prop} (h : QL p q P) (l : Nat) : QL p (q.setNotInferrable l) P := by
   unfold Q.setNotInferrable
   split
-  · exact ⟨h.w, h.n, h.c, h.s⟩
+  · exact ⟨h.w, h.n, h.c, h.s, h.len⟩
   · exact h
 
-theorem QL.setStop {q : Q} {P : Nat → Prop} (h : QL q P) (l : Nat) : QL (q.setStop l) P := by
+theorem QL.setStop {p : Pack} {q : Q} {P : Nat → Prop} (h : QL p q P) (l : Nat) : QL p (q.setStop l) P := by
   obtain ⟨f1, f2, f3, _, _, _, f7⟩ := setStop_fields q l
-  refine ⟨by rw [f3]; exact h.w, ?_, by rw [f2]; exact h.c, by rw [f1]; exact h.s⟩
+  refine ⟨by rw [f3]; exact h.w, ?_, by rw [f2]; exact h.c, by rw [f1]; exact h.s, by rw [f2]; exact h.len⟩
   intro x hx
   simp only [nlKeys] at hx; rw [f7] at hx
   exact h.n x ((filter_keys_mem _ _ _).1 hx).2
@@ -64,20 +72,20 @@ theorem pushAt_mem : ∀ (c : List (List Nat)) (j l k x : Nat), x ∈ (pushAt c 
     | succ k => simp only [pushAt, List.getD_cons_succ] at h ⊢; exact pushAt_mem rest j l k x h
 
 theorem helperWorking_staging_mem (p : Pack) (q : Q) (l : Nat) (ws : List Nat) (hq : q.working = l :: ws) :
-    ∀ w, w ∈ (helperWorking p q).staging → w ∈ q.staging ∨ w.label = l := by
+    ∀ w, w ∈ (helperWorking p q).staging → w ∈ q.staging ∨ (w.label = l ∧ WorkOK p w.work) := by
   rw [helperWorking_unfold p q l ws hq]
   unfold infPart initPart canInf canInit Q.setNotInferrable Q.setNotInitial
   by_cases hi : l ∈ q.ignore <;> by_cases h1 : l ∈ q.infExp <;> by_cases h2 : l ∈ q.initExp <;>
     by_cases n1 : 0 < p.nInf <;> by_cases n2 : 0 < p.nInit <;>
-    simp [hi, h1, h2, n1, n2] <;> grind
+    simp [hi, h1, h2, n1, n2, WorkOK] <;> grind [WorkOK]
 
-theorem QL.hWorking {p : Pack} {q : Q} {P : Nat → Prop} (h : QL q P) : QL (helperWorking p q) P := by
+theorem QL.hWorking {p : Pack} {q : Q} {P : Nat → Prop} (h : QL p q P) : QL p (helperWorking p q) P := by
   match hq : q.working with
   | [] => unfold helperWorking; rw [hq]; exact h
   | l :: ws =>
     obtain ⟨f1, f2, _, _, _, _, _, _, _, _, f11⟩ := helperWorking_fields p q l ws hq
     have hl : P l := h.w l (by rw [hq]; exact List.mem_cons_self)
-    refine ⟨?_, ?_, by rw [f2]; exact h.c, ?_⟩
+    refine ⟨?_, ?_, by rw [f2]; exact h.c, ?_, by rw [f2]; exact h.len⟩
     · intro x hx; rw [f1] at hx; exact h.w x (by rw [hq]; exact List.mem_cons_of_mem _ hx)
     · intro x hx
       simp only [nlKeys] at hx; rw [f11] at hx
@@ -85,15 +93,16 @@ theorem QL.hWorking {p : Pack} {q : Q} {P : Nat → Prop} (h : QL q P) : QL (hel
       · rw [e]; exact hl
       · exact h.n x e
     · intro w hw
-      rcases helperWorking_staging_mem p q l ws hq w hw with e | e
+      rcases helperWorking_staging_mem p q l ws hq w hw with e | ⟨e, e2⟩
       · exact h.s w e
-      · rw [e]; exact hl
+      · rw [e]; exact ⟨hl, e2⟩
 
-theorem QL.hCurr {p : Pack} {q : Q} {P : Nat → Prop} (h : QL q P) : QL (helperCurr p q) P := by
+theorem QL.hCurr {p : Pack} {q : Q} {P : Nat → Prop} (h : QL p q P) : QL p (helperCurr p q) P := by
   match hpop : popFirst q.curr 0 with
   | none => unfold helperCurr; rw [hpop]; exact h
   | some (idx, l, rest) =>
     obtain ⟨g1, g2, _⟩ := popFirst_get q.curr 0 idx l rest hpop
+    obtain ⟨hlen, _, hidx, _⟩ := popFirst_spec q.curr 0 0 idx l rest hpop
     simp only [Nat.sub_zero] at g1 g2
     have hl : P l := h.c idx l (by rw [g1]; exact List.mem_cons_self)
     have sub : ∀ x j, x ∈ rest.getD j [] → P x := by
@@ -101,11 +110,12 @@ theorem QL.hCurr {p : Pack} {q : Q} {P : Nat → Prop} (h : QL q P) : QL (helper
       by_cases e : j = idx
       · subst e; exact h.c j x (by rw [g1]; exact List.mem_cons_of_mem _ hx)
       · rw [g2 j e] at hx; exact h.c j x hx
-    rcases helperCurr_cases p q idx l rest hpop with ⟨_, heq⟩ | ⟨_, heq⟩
+    rcases helperCurr_cases p q idx l rest hpop with ⟨_, heq⟩ | ⟨hK, heq⟩
     · rw [heq]
-      exact (QL.setStop (q := { q with curr := rest }) ⟨h.w, h.n, fun j x hx => sub x j hx, h.s⟩ l)
+      exact (QL.setStop (q := { q with curr := rest }) ⟨h.w, h.n, fun j x hx => sub x j hx, h.s, by simp only; rw [hlen]; exact h.len⟩ l)
     · rw [heq]
-      refine ⟨h.w, h.n, ?_, ?_⟩
+      have hidx' : idx < p.exp.length := by have := h.len; omega
+      refine ⟨h.w, h.n, ?_, ?_, ?_⟩
       · intro j x hx
         rcases pushAt_mem rest (idx + 1) l j x hx with e | e
         · rw [e]; exact hl
@@ -113,10 +123,13 @@ theorem QL.hCurr {p : Pack} {q : Q} {P : Nat → Prop} (h : QL q P) : QL (helper
       · intro w hw
         rcases List.mem_append.1 hw with e | e
         · exact h.s w e
-        · obtain ⟨i, _, e2⟩ := List.mem_map.1 e
-          rw [← e2]; exact hl
+        · obtain ⟨i, hi, e2⟩ := List.mem_map.1 e
+          rw [← e2]; exact ⟨hl, hidx', List.mem_range.1 hi⟩
+      · simp only
+        have : idx + 1 < rest.length := by rw [hlen, h.len]; omega
+        rw [(pushAt_spec rest (idx + 1) 0 l this).1, hlen]; exact h.len
 
-theorem QL.changeLevel {q q' : Q} {P : Nat → Prop} (h : QL q P) (hc : changeLevel q = some q') : QL q' P := by
+theorem QL.changeLevel {p : Pack} {q q' : Q} {P : Nat → Prop} (h : QL p q P) (hc : changeLevel q = some q') : QL p q' P := by
   unfold _root_.changeLevel at hc
   simp only at hc
   split at hc
@@ -126,7 +139,7 @@ theorem QL.changeLevel {q q' : Q} {P : Nat → Prop} (h : QL q P) (hc : changeLe
     · cases hc
     · injection hc with hc
       subst hc
-      refine ⟨h.w, ?_, ?_, h.s⟩
+      refine ⟨h.w, ?_, ?_, h.s, by simp only [List.length_cons]; rw [← h.len, hcur]; rfl⟩
       · intro x hx; simp [nlKeys] at hx
       · intro j x hx
         cases j with
@@ -140,8 +153,8 @@ theorem QL.changeLevel {q q' : Q} {P : Nat → Prop} (h : QL q P) (hc : changeLe
           exact h.c (j + 1) x (by rw [hcur]; exact hx)
 
 /-- whatever `__next__` hands out carries a label the queue held -/
-theorem QL.next {p : Pack} {P : Nat → Prop} : ∀ (f : Nat) (q q' : Q) (o : Out), QL q P →
-    Q.next p f q = (q', o) → QL q' P ∧ ∀ w, o = .yield w → P w.label := by
+theorem QL.next {p : Pack} {P : Nat → Prop} : ∀ (f : Nat) (q q' : Q) (o : Out), QL p q P →
+    Q.next p f q = (q', o) → QL p q' P ∧ ∀ w, o = .yield w → P w.label ∧ WorkOK p w.work := by
   intro f
   induction f with
   | zero =>
@@ -154,8 +167,8 @@ theorem QL.next {p : Pack} {P : Nat → Prop} : ∀ (f : Nat) (q q' : Q) (o : Ou
     unfold Q.next at hn
     split at hn
     · rename_i w st hst
-      have hst' : QL ({ q with staging := st } : Q) P :=
-        ⟨h.w, h.n, h.c, fun x hx => h.s x (by rw [hst]; exact List.mem_cons_of_mem _ hx)⟩
+      have hst' : QL p ({ q with staging := st } : Q) P :=
+        ⟨h.w, h.n, h.c, fun x hx => h.s x (by rw [hst]; exact List.mem_cons_of_mem _ hx), h.len⟩
       simp only at hn
       split at hn
       · exact ih _ _ _ hst' hn
